@@ -122,7 +122,7 @@ theorem c19_expr_type_error_flagged (e : Expr) (hleaves : LeavesOk e) (hte : Rai
   | right op l r _ ih => simp [infer, ih hleaves.2]
 
 /-- non-vacuity: `3 + 2.5` is silent, typed FloatType, and runs to float; `3 + 'ab'` raises and is flagged -/
-example : infer (.node (.bin .add) (.leaf .int .litInt) (.leaf .float .litFloat)) = (.float, false) := by decide
+example : infer (.node (.bin .add) (.leaf .int .litInt) (.leaf .float .litFloat)) = (.float, false) := by rfl
 example : (infer (.node (.bin .add) (.leaf .int .litInt) (.leaf .str .litStr))).2 = true := by decide
 example : Runs (.node (.bin .add) (.leaf .int .litInt) (.leaf .float .litFloat)) .float :=
   Runs.node _ _ _ .int .float .float false [.float] (Runs.leaf _ _) (Runs.leaf _ _) (by decide +kernel) (by decide) (by decide)
@@ -156,7 +156,7 @@ theorem c19_value_type_conforms (v : Val) : isSubtype (typeOf v) (normForm v) = 
     simp [typeOf, normForm, isSubtype, hps, isSub, dictAll_anyany]
 
 /-- non-vacuity: a nested value, its type, and both facts evaluated -/
-example : typeOf (.tuple (.cons (.int 1) (.cons .str .nil))) = .tuple (.cons .litInt (.cons .litStr .nil)) := by decide
-example : typeOf (.list (.cons (.int 1) (.cons .float .nil))) = .list false .litInt := by decide
+example : typeOf (.tuple (.cons (.int 1) (.cons .str .nil))) = .tuple (.cons .litInt (.cons .litStr .nil)) := by rfl
+example : typeOf (.list (.cons (.int 1) (.cons .float .nil))) = .list false .litInt := by rfl
 
 end Pedal.Types
